@@ -177,6 +177,7 @@ func c06(r *core.Report) {
 	requiredExemption(r, "C06.reqexempt")
 	c06RawHeader(r)
 	c06ExactFirst(r)
+	c06EveryPart(r)
 	c06Streams(r)
 	p := r.Prog
 	pk := p.Pkg("openapi3filter")
